@@ -1,6 +1,8 @@
 import Firebolt.Spec.Offsets
 import Firebolt.Generated.Source
 import Firebolt.Expected.Source
+import Firebolt.Generated.Closure
+import Firebolt.Expected.Closure
 /-!
 # C06 — Kafka source resumes within maxpartitionlag of head, files the skipped range
 
@@ -305,5 +307,13 @@ theorem source_requestRecovery : GeneratedSrc.requestRecovery = ExpectedSrc.requ
 /-! ### functions the model's assumptions rest on (construction, wiring, surrounding calls) are unchanged -/
 theorem source_kcSetup : GeneratedSrc.kcSetup = ExpectedSrc.kcSetup := by rfl
 theorem source_kcStart : GeneratedSrc.kcStart = ExpectedSrc.kcStart := by rfl
+
+theorem source_revokePartitionAssignments : GeneratedSrc.revokePartitionAssignments = ExpectedSrc.revokePartitionAssignments := by rfl
+theorem source_kcProcessEvent : GeneratedSrc.kcProcessEvent = ExpectedSrc.kcProcessEvent := by rfl
+theorem source_kcCheckConfig : GeneratedSrc.kcCheckConfig = ExpectedSrc.kcCheckConfig := by rfl
+
+/-! ### influence closure: the pinned functions, and every function of the repository that writes a struct field or package
+variable they read, are unchanged (digests regenerated from /repo on every run; a difference names the functions) -/
+theorem closure_unchanged : GeneratedClo.C06 = ExpectedClo.C06 := by rfl
 
 end Firebolt.C06
